@@ -22,7 +22,7 @@ int vprop_cpu_limit_s = 60;
 const char *vprop_class_names[V_NCLASS] = {
   "form_full", "form_bare", "form_noexec", "float", "has_64bit", "two_d", "accumulator", "x2_x4", "special_load",
   "params", "O0", "O2", "O3", "single_opcode", "const_n", "emulator_regenerated", "difference_within_nan_or_zero_tie_freedom",
-  "float_difference_reference_unsupported", NULL
+  "float_difference_reference_unsupported", "variable_classes_filled_to_limit", NULL
 };
 
 void vprop_init (int argc, char **argv) { (void) argc; (void) argv; orc_init (); }
@@ -183,6 +183,7 @@ void vprop_case (VChoices *c, VResult *r)
   r->classes |= opt == 0 ? 1u << 10 : opt == 3 ? 1u << 12 : 1u << 11;
   if (single) r->classes |= 1u << 13;
   if (ps.const_n) r->classes |= 1u << 14;
+  if (ps.saturated) r->classes |= 1u << 18;
   r->nontrivial = r->sub_evals > 0;
   r->sub_nontrivial = r->sub_evals;
   r->hash = h;
